@@ -307,6 +307,12 @@ func genHistory(rng *rand.Rand, h int, nops int, profile string, spe int) []*Op 
 		init.Slot = e * g.spe
 		init.J, init.F = CP{Epoch: e, Root: 1}, CP{Epoch: e, Root: 1}
 		g.je, g.fe = e, e
+		if rng.Intn(2) == 0 {
+			// justified checkpoint ahead of the finalized one, still on the anchor root (its epoch start slot is a gap
+			// slot that later ProcessSlot calls fill in): the two epochs handed to the constructor differ
+			init.J.Epoch = e + 1 + rng.Intn(2)
+			g.je = init.J.Epoch
+		}
 	} else {
 		init.J, init.F = CP{Epoch: 0, Root: 1}, CP{Epoch: 0, Root: 1}
 	}
